@@ -10,8 +10,7 @@ from .c01 import exact_cost, exact_dp
 
 ANCHORS = {"data_preparation.py": ["label_switching_cost_template", "stack_training_data_multiple_series"],
            "front_end.py": ["ticc_joint_labels"]}
-R_AX = ["ClassicalDedekindReals.sig_forall_dec", "ClassicalDedekindReals.sig_not_dec",
-        "FunctionalExtensionality.functional_extensionality_dep"]
+R_AX = core.R_AX
 RULE = ("(a) the mask helper on every tuple of 1..5 (thorough: 6) stacked lengths in 1..5 against the model and against the "
         "boundary-pair definition; (b) joint stacking = concatenation of the per-series stackings; (c) traced joint runs with 1..4 "
         "series: which switching-cost object reaches the labelling step, reported cost and labels against an exact-rational DP with "
